@@ -173,6 +173,40 @@ func checkC07(c *Ctx) {
 		}
 		w.SeenB(wf[i])
 	})
+	// the marker accessors hand out byte slices: writing into one must not change what Redact/StripMarkers do
+	c.Section("C07/accessor-isolation", map[string]interface{}{"accessors": "StartMarker, EndMarker, RedactedMarker", "after_scribbling": "all strings of <=4 tokens re-checked"}, 1, func(_ int, w *Worker) {
+		acc := []struct {
+			name string
+			f    func() []byte
+			want string
+		}{{"StartMarker", redact.StartMarker, mStart}, {"EndMarker", redact.EndMarker, mEnd}, {"RedactedMarker", redact.RedactedMarker, mRed}}
+		small := NewStrEnum(alphaC07, 3)
+		for _, a := range acc {
+			got := a.f()
+			if string(got) != a.want {
+				w.Fail("accessor", map[string]string{"accessor": a.name}, fmt.Sprintf("%s() = %q, want %q", a.name, got, a.want))
+				continue
+			}
+			saved := append([]byte(nil), got...)
+			for i := range got {
+				got[i] = '*' // a caller is free to reuse the slice it was given
+			}
+			for i := 0; i < small.Total; i++ {
+				x := small.Get(i, nil)
+				w.Eval()
+				if cl, d := c07Eval(x); cl != "" {
+					w.Fail("accessor-isolation", map[string]interface{}{"s": x, "accessor": a.name}, fmt.Sprintf("after writing into the slice returned by %s(): %s", a.name, d))
+					break
+				}
+			}
+			if again := a.f(); string(again) != a.want {
+				w.Fail("accessor-isolation", map[string]string{"accessor": a.name}, fmt.Sprintf("after writing into the slice returned by %s(), %s() = %q", a.name, a.name, again))
+			}
+			copy(got, saved) // restore in case the slice is shared (keeps later sections meaningful)
+			w.SeenS(a.name)
+		}
+		w.SeenS("done")
+	})
 	// outputs produced by the library itself (as the other properties produce them)
 	u := universe()
 	sp := quickDirectives()
